@@ -1,13 +1,54 @@
 import FalconModel.Static
 open St
+
+/-! Line-protocol driver for the static-route model (C16). Strings are hex of their UTF-8 bytes, `-` = empty.
+      range SIZE START END            → whole n | partial first last len | unsat size      (`_set_range`)
+      serve FB DIR SUFFIX             → reject | open PATH                                 (sanitise → normpath → resolve)
+      resolve DIR N                   → reject | open PATH                                 (the tail for an arbitrary normpath result N)
+      norm S                          → path P                                             (`posixpath.normpath`)
+      sanitise FB S                   → ok | reject -/
 def show' : RangeOut → String
   | .whole n => s!"whole {n}"
   | .partial_ a b c => s!"partial {a} {b} {c}"
   | .unsatisfiable n => s!"unsat {n}"
-def main : IO Unit := do
-  for size in [0:7] do
-    for s in [0:17] do
-      for e in [0:10] do
-        let start : Int := (s : Int) - 8
-        let end_ : Int := (e : Int) - 1
-        IO.println s!"{size} {start} {end_} {show' (setRange size start end_)}"
+
+def hexVal (c : Char) : Nat :=
+  if '0' ≤ c ∧ c ≤ '9' then c.toNat - 48 else if 'a' ≤ c ∧ c ≤ 'f' then c.toNat - 87 else if 'A' ≤ c ∧ c ≤ 'F' then c.toNat - 55 else 0
+def unhexB : List Char → List UInt8
+  | a :: b :: rest => UInt8.ofNat (hexVal a * 16 + hexVal b) :: unhexB rest
+  | _ => []
+def unhex (s : String) : Option (List Char) :=
+  if s == "-" then some [] else (String.fromUTF8? (ByteArray.mk (unhexB s.toList).toArray)).map (·.toList)
+def hexDigit (n : Nat) : Char := if n < 10 then Char.ofNat (48 + n) else Char.ofNat (87 + n)
+def hex (s : List Char) : String :=
+  if s.isEmpty then "-" else
+    String.ofList ((String.ofList s).toUTF8.toList.flatMap fun b => [hexDigit (b.toNat / 16), hexDigit (b.toNat % 16)])
+
+def showOpen : Option (List Char) → String
+  | none => "reject"
+  | some p => "open " ++ hex p
+
+def step (line : String) : String :=
+  match line.trimAscii.toString.splitOn " " with
+  | ["range", sz, a, b] =>
+    match sz.toNat?, a.toInt?, b.toInt? with
+    | some sz, some a, some b => show' (setRange sz a b)
+    | _, _, _ => "bad-args"
+  | ["serve", fb, d, s] =>
+    match unhex d, unhex s with
+    | some d, some s => showOpen (serve (fb == "1") d s)
+    | _, _ => "bad-utf8"
+  | ["resolve", d, n] =>
+    match unhex d, unhex n with
+    | some d, some n => showOpen (resolve d n)
+    | _, _ => "bad-utf8"
+  | ["norm", s] => match unhex s with | some s => "path " ++ hex (normpath s) | none => "bad-utf8"
+  | ["sanitise", fb, s] => match unhex s with | some s => (if sanitise (fb == "1") s then "ok" else "reject") | none => "bad-utf8"
+  | _ => "bad-op"
+
+partial def loop (h : IO.FS.Stream) : IO Unit := do
+  let line ← h.getLine
+  if line.isEmpty then return ()
+  IO.println (step line)
+  loop h
+def main : IO Unit := do loop (← IO.getStdin)
